@@ -181,6 +181,17 @@ func mtqueriesMain(args []string) int {
 				tree[q.Node-1].M.Extend(det, name+"-w1", ".w1", arena[0:2]...)
 				arena = append(arena, name+"-w2a", name+"-w2b")
 				tree[q.Node-1].M.Extend(det, name+"-w2", ".w2", arena[2:4]...)
+				// ... and ONE table passed to two registrations (it names the second format itself)
+				tbl := []string{name + "-t-a", name + "-t2", name + "-t-b"}
+				tree[q.Node-1].M.Extend(det, name+"-t1", ".t1", tbl...)
+				tree[q.Node-1].M.Extend(det, name+"-t2", ".t2", tbl...)
+				for _, a := range []string{name + "-t-a", name + "-t-b"} {
+					for _, owner := range []string{name + "-t1", name + "-t2"} {
+						if o := mimetype.Lookup(owner); o == nil || !o.Is(a) {
+							rep.violate(Violation{Property: "C15", Kind: "shared-alias-table", Text: fmt.Sprintf("%s.Is(%q) after the same alias table was passed to two Extends", owner, a), Detail: fmt.Sprintf("false; the caller's table now reads %q", tbl), Key: "C15|table|" + owner + a})
+						}
+					}
+				}
 				n1 := mimetype.Lookup(name + "-w1")
 				if n1 != nil {
 					_ = n1.Is(name + "-w1a")
